@@ -230,6 +230,9 @@ Fixpoint run_wire_from (o : fpops) (c : cfg) (boot : Z) (s : st) (r : rp) (ws : 
       run_wire_from o c' (nth0 a 0) (init c' (nth0 a 6) (nth0 a 7) (nth0 a 8)) rp0 rest
     else if k =? 1 then run_wire_from o c boot (step o c boot s (SetDir (nth0 a 0))) r rest
     else if k =? 3 then run_wire_from o c boot (step o c boot s (Poke (nth0 a 0) (nth0 a 1))) r rest
+    (* 4 RESEND ph: the command for the direction that is already energised is sent again between two callbacks (the real
+       supla_esp_gpio_relay_hi runs): nothing of this state may change, in particular not last_time *)
+    else if k =? 4 then run_wire_from o c boot s r rest
     else
       let s' := step o c boot s (Cb (nth0 a 0)) in
       let '(r', rep) := rep_step c boot s s' (nth0 a 0) r in
